@@ -1,5 +1,5 @@
 (** Types and primitive operations used by the generated interpreter model (coq/gen/Interp.v). *)
-From Coq Require Import ZArith List Bool.
+From Coq Require Import ZArith List Bool Arith.
 From RbpfV Require Import MachInt Ebpf Mem.
 Import ListNotations.
 Open Scope Z_scope.
@@ -57,6 +57,13 @@ Definition frames_restore_regs (stacks : list frame) (idx : Z) (reg : list Z) : 
   f <- frame_get stacks idx ;;
   let r := f_regs f in
   Ok (upd (upd (upd (upd reg 6 (nth 0 r 0)) 7 (nth 1 r 0)) 8 (nth 2 r 0)) 9 (nth 3 r 0)).
+
+Lemma upd_nat_len {A} (l : list A) i v : length (upd_nat l i v) = length l.
+Proof. revert i; induction l; intros [|i]; cbn; auto. Qed.
+Lemma flen_upd stacks k f : flen (upd_nat stacks k f) = flen stacks.
+Proof. unfold flen. now rewrite upd_nat_len. Qed.
+Lemma nth_upd_same {A} (l : list A) k v d : (k < length l)%nat -> nth k (upd_nat l k v) d = v.
+Proof. revert k; induction l as [|h t IH]; intros [|k] H; cbn in *; try (exfalso; inversion H; fail); auto. apply IH. apply Nat.succ_lt_mono. exact H. Qed.
 
 (** the interpreter's state between two instructions:
     (registers, pc, frame index, frames, memory) *)
